@@ -409,6 +409,121 @@ def l8(ctx, rid):
     c12.s8(ctx, rid, only_sync=False)
 
 
+def l11(ctx, rid):
+    """whenever the worker registers or refreshes the deferred index-dump event (a non-None store into
+    `deferred_index_dump_info`, DeferredEventData::update_last_time) the deadline is armed before the handler returns:
+    the deadline is reset to None each time it is reached, and only an armed deadline makes the worker look at the event"""
+    prog = ctx.prog
+    L, E = prog.may_reach()
+    n = 0
+    for f in prog.fns.values():
+        if f.file != WORKER_FILE:
+            continue
+        regs = []
+        for i, b in enumerate(f.blocks):
+            if b['c'] or i not in f.reachable():
+                continue
+            for s in b['s']:
+                if s['k'] == 'a' and core.place_fields(s['d'])[-1:] == ['deferred_index_dump_info']:
+                    r = s['r']
+                    if r['k'] == 'agg' and r.get('variant') == 'None':
+                        continue
+                    if r['k'] == 'use':
+                        ogs = core.origins(f, r['o'])
+                        if ogs and all(o.kind == 'agg' and o.data.get('variant') == 'None' for o in ogs):
+                            continue
+                    if r['k'] == 'agg' and r.get('adt') != 'std::option::Option':
+                        continue    # construction of the worker itself
+                    regs.append((i, 'registered'))
+        for c in f.calls:
+            if c.bb in f.reachable() and c.name == 'update_last_time' and c.t['t'] is not None:
+                regs.append((c.t['t'], 'refreshed'))
+        if not regs:
+            continue
+        arms = []
+        for c in f.calls:
+            if c.bb not in f.reachable() or c.name == 'poll':
+                continue
+            for t in prog.resolve(c):
+                if t in prog.fns and (t.endswith('::update_deadline') or any(x.endswith('::update_deadline') for x in L.get(t, ()))):
+                    arms.append(c.bb)
+        rets = [i for i in f.reachable() if f.blocks[i]['t']['k'] == 'return']
+        # after a registration / refresh the field is Some: the None edge of a later test of the same field is infeasible
+        none_edges = []
+        for i in f.reachable():
+            t = f.blocks[i]['t']
+            if t['k'] != 'switch':
+                continue
+            for (b2, si, kind, r) in f.defs().get(op_local(t['o']), []):
+                if kind == 'assign' and r['k'] == 'discr' and core.place_fields_deep(f, r['p'])[-1:] == ['deferred_index_dump_info']:
+                    none_edges += [tg for v, tg in t['vals'] if v == 0]
+                    if all(v == 1 for v, _ in t['vals']):
+                        none_edges.append(t['otherwise'])
+        for (bb, how) in regs:
+            n += 1
+            key = 'deferred-event-armed|%s|%s' % (prog.fns[f.id].root, how)
+            reach = f.reach_from([bb], avoid_exit=arms, avoid_enter=none_edges)
+            loose = [r for r in rets if r in reach]
+            if loose and bb not in f.reach_from([0], avoid_exit=arms):
+                loose = []      # armed earlier on every path of this handler
+            if loose:
+                ctx.bad(rid, key, f.where(bb), 'the deferred index-dump event is %s here and the handler can return without arming the deadline: the deadline was reset when it was reached, so unless another request arrives the requested dump never runs' % how,
+                        witness=['bb%d %s' % (b, f.where(b)) for b in (f.path([bb], loose, avoid_exit=arms, avoid_enter=none_edges) or [])])
+            else:
+                ctx.ok(rid, key, f.where(bb), 'update_deadline on every path to the return')
+    if n < 3:
+        raise core.AnchorLost('registrations of the deferred event: %d' % n)
+
+
+def l10(ctx, rid):
+    """resumable maintenance loops make progress past a failing element: in a body that resumes an iteration with
+    `.skip(progress)` every fallible call applied to an element is only reached after the progress counter was advanced in
+    that iteration, or its failure edge cannot come back to the `.skip(progress)` without advancing it.  Otherwise a blob
+    whose dump fails persistently is retried for ever: the dump task never finishes, later dump requests are dropped as
+    'already running' and close() waits for the task."""
+    prog = ctx.prog
+    n = 0
+    for f in prog.fns.values():
+        for sk in f.calls:
+            if sk.name != 'skip' or sk.trait != 'std::iter::Iterator' or len(sk.args) < 2 or sk.bb not in f.reachable():
+                continue
+            # the progress variable: the local the skip count is copied from
+            ps = [o for o in core.origins(f, sk.args[1]) ]
+            cnt = op_local(sk.args[1])
+            ds = [x for x in f.defs().get(cnt, []) if x[2] == 'assign' and x[3]['k'] == 'use']
+            P = op_local(ds[0][3]['o']) if len(ds) == 1 else cnt
+            if P is None or not f.debug_name(P):
+                continue
+            incs = []
+            for (bb, si, kind, r) in f.defs().get(P, []):
+                if kind != 'assign':
+                    continue
+                for o in core.origins(f, P if False else (r['o'] if r['k'] == 'use' else None)) if r['k'] == 'use' else ([core.Origin('binop', f, bb, r)] if r['k'] == 'bin' else []):
+                    if o.kind == 'binop' and o.data.get('op', '').startswith('Add') and any(op_local(o.data[x]) == P for x in ('a', 'b')):
+                        incs.append(bb)
+            if not incs:
+                continue
+            start = sk.t['t']
+            for c in f.calls:
+                if c.bb not in f.reachable() or c.name in ('poll', 'branch', 'from_residual', 'into_future', 'new_unchecked') or c.bb not in f.reach_from([start]):
+                    continue
+                if not any(t in prog.fns and t.startswith('blob::') for t in prog.resolve(c)) or not core.returns_result(prog, c):
+                    continue
+                n += 1
+                key = 'progress-past-failure|%s|%s' % (prog.fns[f.id].root, c.name)
+                if c.bb not in f.reach_from([start], avoid_exit=incs):
+                    ctx.ok(rid, key, c.where(), '`%s` advanced before the element is processed' % f.debug_name(P))
+                    continue
+                eb = core.err_edge(f, c)
+                back = [b for b in (eb or []) if sk.bb in f.reach_from([b], avoid_exit=incs)]
+                if eb and not back:
+                    ctx.ok(rid, key, c.where(), 'the failure edge cannot return to skip(%s) without advancing it' % f.debug_name(P))
+                else:
+                    ctx.bad(rid, key, c.where(), 'a failure of `%s` can lead back to `.skip(%s)` without `%s` having been advanced: a blob whose dump fails persistently is retried for ever - the background task never finishes, later requests are dropped as "already running", close() waits for it' % (c.name, f.debug_name(P), f.debug_name(P)))
+    if n < 1:
+        raise core.AnchorLost('resumable loop with a fallible per-element call: %d' % n)
+
+
 RULES = [
     Rule('C13.L1', 'the worker loop is only left through the Stop arm (recv() == None) and contains no reachable panic written in the worker module', l1, 4),
     Rule('C13.L3', 'one channel, Sender never cloned, stored only in the Running state, dropped before the worker handle is awaited', l3, 4),
@@ -417,5 +532,7 @@ RULES = [
     Rule('C13.L6', 'no armed wait-for cycle involves the worker (same graph as C08.D1)', l6, 1),
     Rule('C13.L7', 'a deadline armed for deferred work is never wiped by a later reset in the same body', l7, 1),
     Rule('C13.L9', 'requests to the worker are sent with the waiting send (never dropped when the queue is full)', l9, 1),
+    Rule('C13.L11', 'every registration / refresh of the deferred index-dump event arms the worker deadline before the handler returns', l11, 3),
+    Rule('C13.L10', 'a resumable maintenance loop advances its progress counter past an element whose processing failed', l10, 1),
     Rule('C13.L8', 'request-pending / in-progress flags are released on every path of their handler (C12.S8 instances)', l8, 1),
 ]
